@@ -1046,7 +1046,9 @@ func ruleDetectorTableBounded(c *Ctx, r *Report) {
 		isRem := func(x ssa.Value) bool {
 			ls := c.Origins(x, 0)
 			return len(ls) > 0 && allLeaves(ls, func(l ssa.Value) bool {
-				return isCallResult(l, func(n string) bool { return strings.HasSuffix(n, ").RemoteEpoch") || strings.HasSuffix(n, ".getRemoteEpoch") })
+				return isCallResult(l, func(n string) bool {
+					return strings.HasSuffix(n, ").RemoteEpoch") || strings.HasSuffix(n, ".getRemoteEpoch")
+				})
 			})
 		}
 		var ans map[token.Token]bool
